@@ -10,10 +10,18 @@
   `&str` / `u64`); fewer than 2^64 calls (ids fit in a u64); the stream is shorter than 2^64 bytes
   (name lengths fit in a u64 even if `P.nameMax ≥ 2^64`); the hash function returns 32 bytes
   (`hH`) — without `hH` the statement is false, see the counterexample at the end of this file.
+
+    * `blocks`    : list / get_file / size / get_hash over the index the writer built give the spec.
+    * `archive`   : `parseFooter` of the emitted stream is exactly that index (needs the footer
+                    length to fit its u32 field, `hfoot`).
+    * `roundtrip` : both together — open the archive as the reader does, then read everything.
+    * `setup`     : the shape of an accepted finalized run (invariant, stream = blocks ++ eoad ++
+                    footer), shared with C12.
 -/
 import MlaModel.Spec
 import MlaModel.Proofs.ReaderCorrect
 import MlaModel.Proofs.WriterInv
+import MlaModel.Proofs.Footer
 namespace MlaModel.C01
 open MlaModel
 
@@ -42,8 +50,8 @@ theorem wf_of_wf0 {P : Params} {utf8 : Bytes → Bool} {nid : Nat} {b : Block}
 /-- the state in which the closing `finalize` was accepted -/
 theorem finalize_accepted {s s1 : WState} {r : Res} {e : Bytes}
     (h : stepFinalize s = (s1, r, e)) (hr : r.isOk = true) :
-    s.finalized = false ∧ s.opened = [] ∧ s1.index = s.index ∧
-      e = Block.eoad.encode ++ encFooter s.names s.info := by
+    s.finalized = false ∧ s.opened = [] ∧ s1.index = s.index ∧ s1.names = s.names ∧
+      s1.info = s.info ∧ e = Block.eoad.encode ++ encFooter s.names s.info := by
   unfold stepFinalize at h
   split at h
   · simp only [Prod.mk.injEq] at h; obtain ⟨_, rfl, _⟩ := h; simp [Res.isOk] at hr
@@ -53,7 +61,64 @@ theorem finalize_accepted {s s1 : WState} {r : Res} {e : Bytes}
     · rename_i ho
       simp only [Prod.mk.injEq] at h
       obtain ⟨rfl, _, rfl⟩ := h
-      refine ⟨by simpa using hf, by simpa using ho, rfl, rfl⟩
+      refine ⟨by simpa using hf, by simpa using ho, rfl, rfl, rfl, rfl⟩
+
+/-- What an accepted run that ends with `finalize` looks like: the state `s'` in which the closing
+    `finalize` was issued satisfies the writer invariant for some block list `nb`, no file is open,
+    the final index is that of `s'`, and the stream is `encodeAll nb ++ eoad ++ footer`. -/
+theorem setup (P : Params) (H : Bytes → Bytes) (utf8 : Bytes → Bool) (ops : List Op)
+    (hH : ∀ b, (H b).length = hashLen) (hwf : ∀ op ∈ ops, op.WF utf8)
+    (hacc : AllAccepted P H ops) (hfin : ops.getLast? = some .finalize) :
+    ∃ (s' : WState) (nb : List Block),
+      Inv P H utf8 s' nb (ops.foldl SpecState.step {}) ∧ s'.opened = [] ∧
+      (Writer.run P H ops).1.index = s'.index ∧ (Writer.run P H ops).1.names = s'.names ∧
+      (Writer.run P H ops).1.info = s'.info ∧
+      (Writer.run P H ops).2.2 =
+        encodeAll nb ++ (Block.eoad.encode ++ encFooter s'.names s'.info) ∧
+      s'.nextId < ops.length := by
+  obtain ⟨ops', rfl⟩ := List.getLast?_eq_some_iff.1 hfin
+  unfold AllAccepted at hacc
+  unfold Writer.run at hacc ⊢
+  rw [runFrom_append] at hacc ⊢
+  simp only at hacc ⊢
+  have hlast : Writer.runFrom P H (Writer.runFrom P H WState.init ops').1 [.finalize] =
+      ((stepFinalize (Writer.runFrom P H WState.init ops').1).1,
+       [(stepFinalize (Writer.runFrom P H WState.init ops').1).2.1],
+       (stepFinalize (Writer.runFrom P H WState.init ops').1).2.2 ++ []) := by
+    simp [Writer.runFrom, Writer.step]
+  rw [hlast] at hacc ⊢
+  simp only [List.append_nil] at hacc ⊢
+  generalize hs' : (Writer.runFrom P H WState.init ops').1 = s' at *
+  obtain ⟨hnf, hop, hidx, hnames, hinfo, he⟩ :=
+    finalize_accepted (s := s') (s1 := (stepFinalize s').1)
+      (r := (stepFinalize s').2.1) (e := (stepFinalize s').2.2) rfl (hacc _ (by simp))
+  obtain ⟨nb, hnb, hinv⟩ := run_inv (P := P) (H := H) (utf8 := utf8) hH ops' WState.init [] {}
+    (Inv.init P H utf8) (fun o ho => hwf o (by simp [ho])) (fun r hr => hacc r (by simp [hr]))
+    (by rw [hs']; exact hnf)
+  rw [hs'] at hinv
+  simp only [List.nil_append] at hinv
+  have hfold : (ops' ++ [Op.finalize]).foldl SpecState.step {} = ops'.foldl SpecState.step {} := by
+    simp [List.foldl_append, SpecState.step]
+  refine ⟨s', nb, by rw [hfold]; exact hinv, hop, hidx, hnames, hinfo, by rw [hnb, he], ?_⟩
+  have := spec_next_le ops' {}
+  rw [hinv.spn] at this
+  have h0 : ({} : SpecState).next = 0 := rfl
+  simp only [List.length_append, List.length_singleton]
+  omega
+
+/-- the blocks of such a run are well formed for the reader -/
+theorem blocks_wf {P : Params} {H : Bytes → Bytes} {utf8 : Bytes → Bool} {s' : WState}
+    {nb : List Block} {sp : SpecState} (hinv : Inv P H utf8 s' nb sp) (hnid : s'.nextId ≤ U64)
+    (hl : (encodeAll nb).length < U64) : ∀ b ∈ nb, b.WF P utf8 ∧ b.NE := by
+  intro b hb
+  refine wf_of_wf0 (hinv.wf0 b hb) hnid ?_
+  have := encode_length_le_of_mem hb
+  omega
+
+theorem specOf_eq {P : Params} {H : Bytes → Bytes} {utf8 : Bytes → Bool} {s' : WState}
+    {nb : List Block} {ops : List Op} (hinv : Inv P H utf8 s' nb (ops.foldl SpecState.step {})) :
+    specOf ops = s'.names.map (fun p => (p.1, contentOf p.2 nb)) := by
+  simp [specOf, hinv.spf, List.map_map, Function.comp_def]
 
 /-- **C01.blocks** — round trip at the level of the typed block stream, for every op sequence. -/
 theorem blocks (P : Params) (H : Bytes → Bytes) (utf8 : Bytes → Bool) (ops : List Op)
@@ -71,49 +136,15 @@ theorem blocks (P : Params) (H : Bytes → Bytes) (utf8 : Bytes → Bool) (ops :
       Reader.getFile P utf8 stream st.index name n = .ok content ∧
       Reader.getSize st.index name = .ok content.length ∧
       Reader.getHash P utf8 stream st.index name = .ok (H content) := by
-  obtain ⟨ops', rfl⟩ := List.getLast?_eq_some_iff.1 hfin
-  unfold AllAccepted at hacc
-  unfold Writer.run at hacc hpos ⊢
-  rw [runFrom_append] at hacc hpos ⊢
-  simp only at hacc hpos ⊢
-  -- the closing finalize
-  have hlast : Writer.runFrom P H (Writer.runFrom P H WState.init ops').1 [.finalize] =
-      ((stepFinalize (Writer.runFrom P H WState.init ops').1).1,
-       [(stepFinalize (Writer.runFrom P H WState.init ops').1).2.1],
-       (stepFinalize (Writer.runFrom P H WState.init ops').1).2.2 ++ []) := by
-    simp [Writer.runFrom, Writer.step]
-  rw [hlast] at hacc hpos ⊢
-  simp only [List.append_nil] at hacc hpos ⊢
-  generalize hs' : (Writer.runFrom P H WState.init ops').1 = s' at *
-  obtain ⟨hnf, hop, hidx, he⟩ := finalize_accepted (s := s') (s1 := (stepFinalize s').1)
-    (r := (stepFinalize s').2.1) (e := (stepFinalize s').2.2) rfl (hacc _ (by simp))
-  -- the invariant before it
-  obtain ⟨nb, hnb, hinv⟩ := run_inv (P := P) (H := H) (utf8 := utf8) hH ops' WState.init [] {}
-    (Inv.init P H utf8) (fun o ho => hwf o (by simp [ho])) (fun r hr => hacc r (by simp [hr]))
-    (by rw [hs']; exact hnf)
-  rw [hs'] at hinv
-  simp only [List.nil_append] at hinv
-  generalize hsp : ops'.foldl SpecState.step {} = sp at hinv
-  have hspec : specOf (ops' ++ [.finalize]) = s'.names.map (fun p => (p.1, contentOf p.2 nb)) := by
-    simp [specOf, List.foldl_append, hsp, SpecState.step, hinv.spf, List.map_map, Function.comp_def]
+  obtain ⟨s', nb, hinv, hop, hidx, _, _, hstream, hnid⟩ := setup P H utf8 ops hH hwf hacc hfin
+  have hspec := specOf_eq hinv
   have hindex : s'.index = s'.names.map
       (fun p => (p.1, (fun id => (alookup id s'.info).getD ⟨[], 0, 0⟩) p.2)) := rfl
-  rw [hidx, hnb, he, hspec]
+  simp only
+  rw [hstream] at hpos ⊢
+  rw [hidx, hspec]
   generalize htail : Block.eoad.encode ++ encFooter s'.names s'.info = tail at *
-  rw [hnb] at hpos
-  -- bounds
-  have hnid : s'.nextId ≤ U64 := by
-    have := spec_next_le ops' {}
-    rw [hsp, hinv.spn] at this
-    simp only [List.length_append, List.length_singleton] at hlen
-    have h0 : ({} : SpecState).next = 0 := rfl
-    omega
-  have hoks : ∀ b ∈ nb, b.WF P utf8 ∧ b.NE := by
-    intro b hb
-    refine wf_of_wf0 (hinv.wf0 b hb) hnid ?_
-    have := encode_length_le_of_mem hb
-    simp only [List.length_append] at hpos
-    omega
+  have hoks := blocks_wf hinv (by omega) (by simp only [List.length_append] at hpos; omega)
   refine ⟨?_, ?_⟩
   · simp [Reader.listFiles, hindex, List.map_map, Function.comp_def]
   · intro name content hmem n hn
@@ -146,6 +177,109 @@ theorem blocks (P : Params) (H : Bytes → Bytes) (utf8 : Bytes → Bool) (ops :
       exact getHash_blocks (P := P) (utf8 := utf8) (i := id) p2 _ (encodeAll r2 ++ tail)
         s'.index pname fi hfind (hsE _ hbs2) hwfe heof
 
+/-! ### the footer: the reader's own parse recovers the writer's index -/
+
+theorem length_le_encodeAll (bs : List Block) : bs.length ≤ (encodeAll bs).length := by
+  induction bs with
+  | nil => simp
+  | cons b bs ih => have := Block.encode_pos b; simp; omega
+
+theorem runStartsB_length_le (i : Nat) (bs : List Block) (off : Nat) (prev : Bool) :
+    (runStartsB i bs off prev).length ≤ bs.length := by
+  induction bs generalizing off prev with
+  | nil => simp [runStartsB]
+  | cons b bs ih =>
+    have := ih (off + b.encode.length) (b.mine i)
+    simp only [runStartsB, List.length_append, List.length_cons]
+    split <;> simp <;> omega
+
+theorem runStartsB_mem_le (i : Nat) (bs : List Block) (off : Nat) (prev : Bool) (o : Nat)
+    (h : o ∈ runStartsB i bs off prev) : o ≤ off + (encodeAll bs).length := by
+  induction bs generalizing off prev with
+  | nil => simp [runStartsB] at h
+  | cons b bs ih =>
+    simp only [runStartsB, List.mem_append] at h
+    rcases h with h | h
+    · split at h
+      · simp only [List.mem_singleton] at h; omega
+      · simp at h
+    · have := ih _ _ h
+      simp only [encodeAll_cons, List.length_append]; omega
+
+/-- every number the footer stores fits in a u64 and every name is valid UTF-8 -/
+theorem indexWF {P : Params} {H : Bytes → Bytes} {utf8 : Bytes → Bool} {s' : WState}
+    {nb : List Block} {sp : SpecState} (hinv : Inv P H utf8 s' nb sp) (hop : s'.opened = [])
+    (hnid : s'.nextId < U64) (hl : (encodeAll nb).length < U64) : IndexWF utf8 s'.index := by
+  have hoks := blocks_wf hinv (by omega) hl
+  refine ⟨?_, ?_⟩
+  · have : s'.index.length = s'.nextId := by
+      have := congrArg List.length hinv.ids
+      simpa [WState.index] using this
+    omega
+  · intro e he
+    obtain ⟨p, hp, rfl⟩ := List.mem_map.1 he
+    obtain ⟨pname, id⟩ := p
+    obtain ⟨fi, hfi, hok⟩ := hinv.files pname id hp
+    obtain ⟨pre, rest, hbs, hpre, _, hclosed⟩ := hok.tr
+    obtain ⟨hot, p2, r2, hbs2, heof⟩ := hclosed (by rw [hop]; rfl)
+    have hstart := (hoks (.start id pname) (by rw [hbs]; simp)).1
+    simp only [hfi, Option.getD_some]
+    refine ⟨hstart.2.2.2, hstart.2.2.1, ?_, ?_, ?_, ?_⟩
+    · rw [hok.offs]
+      have := runStartsB_length_le id nb 0 false
+      have := length_le_encodeAll nb
+      omega
+    · intro o ho
+      rw [hok.offs] at ho
+      have := runStartsB_mem_le id nb 0 false o ho
+      omega
+    · rw [hok.size]
+      have := contentOf_length_le id nb
+      omega
+    · rw [heof]
+      have : (encodeAll p2).length ≤ (encodeAll nb).length := by
+        conv => rhs; rw [hbs2]
+        simp
+      omega
+
+/-- **C01.archive** — the reader's own parse of the footer of the emitted stream gives exactly the
+    index the writer built (the one `blocks` talks about).  `hfoot`: the footer length field is a
+    u32. -/
+theorem archive (P : Params) (H : Bytes → Bytes) (utf8 : Bytes → Bool) (ops : List Op)
+    (hH : ∀ b, (H b).length = hashLen) (hwf : ∀ op ∈ ops, op.WF utf8)
+    (hacc : AllAccepted P H ops) (hfin : ops.getLast? = some .finalize)
+    (hlen : ops.length < U64) (hpos : (Writer.run P H ops).2.2.length < U64)
+    (hfoot : (encFooter (Writer.run P H ops).1.names (Writer.run P H ops).1.info).length - 4 < U32) :
+    parseFooter utf8 (Writer.run P H ops).2.2 = .ok (Writer.run P H ops).1.index := by
+  obtain ⟨s', nb, hinv, hop, hidx, hnames, hinfo, hstream, hnid⟩ :=
+    setup P H utf8 ops hH hwf hacc hfin
+  rw [hnames, hinfo] at hfoot
+  rw [hstream] at hpos ⊢
+  rw [hidx]
+  have hl : (encodeAll nb).length < U64 := by
+    simp only [List.length_append] at hpos; omega
+  have := parseFooter_index utf8 (encodeAll nb ++ Block.eoad.encode) s' hinv.nodup
+    (indexWF hinv hop (by omega) hl) hfoot
+  rw [List.append_assoc] at this
+  exact this
+
+/-- **C01.roundtrip** — write, then open the archive as the reader does (parse the footer of the
+    stream), then list / read / size / hash: everything the spec says, for every buffer size. -/
+theorem roundtrip (P : Params) (H : Bytes → Bytes) (utf8 : Bytes → Bool) (ops : List Op)
+    (hH : ∀ b, (H b).length = hashLen) (hwf : ∀ op ∈ ops, op.WF utf8)
+    (hacc : AllAccepted P H ops) (hfin : ops.getLast? = some .finalize)
+    (hlen : ops.length < U64) (hpos : (Writer.run P H ops).2.2.length < U64)
+    (hfoot : (encFooter (Writer.run P H ops).1.names (Writer.run P H ops).1.info).length - 4 < U32) :
+    let stream := (Writer.run P H ops).2.2
+    ∃ ix, parseFooter utf8 stream = .ok ix ∧
+      Reader.listFiles ix = (specOf ops).map (·.1) ∧
+      ∀ name content, (name, content) ∈ specOf ops → ∀ n, 0 < n →
+        Reader.getFile P utf8 stream ix name n = .ok content ∧
+        Reader.getSize ix name = .ok content.length ∧
+        Reader.getHash P utf8 stream ix name = .ok (H content) :=
+  ⟨_, archive P H utf8 ops hH hwf hacc hfin hlen hpos hfoot,
+    blocks P H utf8 ops hH hwf hacc hfin hlen hpos⟩
+
 /-! ### Non-vacuity: a concrete op list with two interleaved files (and an `add`) meets every
     hypothesis of `blocks`. -/
 
@@ -164,7 +298,17 @@ theorem exOps_len : exOps.length < U64 := by decide
 set_option maxRecDepth 4096 in
 theorem exOps_pos : (Writer.run Params.prod exH exOps).2.2.length < U64 := by decide
 
+set_option maxRecDepth 4096 in
+theorem exOps_foot : (encFooter (Writer.run Params.prod exH exOps).1.names
+    (Writer.run Params.prod exH exOps).1.info).length - 4 < U32 := by decide
+
 example : specOf exOps = [([97], [1, 2, 7]), ([98], [9]), ([99], [5, 6])] := by decide
+
+/-- `archive` applies to the example -/
+example : parseFooter (fun _ => true) (Writer.run Params.prod exH exOps).2.2 =
+    .ok (Writer.run Params.prod exH exOps).1.index :=
+  archive Params.prod exH (fun _ => true) exOps exH_len exOps_wf exOps_accepted exOps_last
+    exOps_len exOps_pos exOps_foot
 
 /-- the theorem applies to the example: the interleaved file `a` reads back as `[1, 2, 7]` with
     a 2-byte read buffer -/
